@@ -128,7 +128,8 @@ func serializeAttrs(pc *PrintCtx, kvps Attrs) (err error) { //nolint:revive
 	inGroupedMode := pc.inGroupedMode
 
 	if pc.dedupeAttrs {
-		slices.SortFunc(kvps, func(a, b Attr) int {
+		// stable: among equal keys the last occurrence must stay last, it is the one dedupeSlice keeps
+		slices.SortStableFunc(kvps, func(a, b Attr) int {
 			if a == nil {
 				if b == nil {
 					return 0
